@@ -137,7 +137,15 @@ def gen_script(rng: random.Random, seed: int) -> dict:
                 target = rng.choice(["list", "watch", "watch"])
                 if kind == "timeout" and target == "watch" and st["client_timeout"] > 8:
                     kind = "conn"       # the fake sleeps the whole client timeout: keep the run short
-                cluster_ops.append(["fail", target, kind, rng.choice([1, 2, 3, 4]),
+                count = rng.choice([1, 2, 3, 4])
+                if kind in ("500", "403") and not killers:
+                    # an escalated 5xx/403 kills the stream (outside the property's fault list): keep it below
+                    # the number of attempts unless this script is meant to die
+                    if len(st["backoffs"]) == 0:
+                        kind = rng.choice(["429", "conn"])
+                    else:
+                        count = min(count, len(st["backoffs"]))
+                cluster_ops.append(["fail", target, kind, count,
                                     rng.choice([1, 2, 3])])
             elif use_http410:
                 http = not http
